@@ -501,6 +501,13 @@ func fluentCase(seed uint64, idx int) *CaseSpec {
 				}
 				sentSoFar = st.nSent()
 				t.Add("fl.restart")
+			case elected && x == 99 && r.IntN(2) == 0:
+				// the initial election id specified again on the connection, after updates: it is the
+				// id most recently set on the client, so the next operations carry it
+				lo, hi := uint64(1+r.IntN(9)), uint64(r.IntN(3))
+				c.Connection().WithInitialElectionID(lo, hi)
+				initLo, initHi = lo, hi
+				t.Add("fl.initelec %d %d", lo, hi)
 			default:
 				lo, hi := uint64(1+r.IntN(9)), uint64(r.IntN(3))
 				if r.IntN(4) == 0 {
